@@ -63,8 +63,11 @@ def systematic(i):
     n = i % 4
     fault_at = (i // 4) % 40
     kind = (i // 160) % 3       # crash / eio / enospc (the 'short' kind is drawn in the seeded part)
-    #       nimg nfiles  file names   sizes (100 bytes; index.wtml 300)   inject fault_at kind
-    return [0, n] + [0] * n + [2] * (n + 1) + [0, fault_at, kind]
+    #       nimg nfiles  file names   sizes (100 bytes; index.wtml 300)   inject fault_at kind [no second fault]
+    return [0, n] + [0] * n + [2] * (n + 1) + [0, fault_at, kind, 0]
+
+
+IO_ERRNOS = [errno.EIO, errno.ESTALE, errno.ETIMEDOUT, errno.EAGAIN, errno.EBUSY, errno.EACCES, errno.EINTR, errno.ECONNRESET, errno.EROFS, errno.EDQUOT]
 
 
 class Crash(BaseException):
@@ -84,12 +87,14 @@ class Controller(object):
         self.probes = {}
         self.faults = {}
 
-    def arm(self, fault_at, fault_kind):
+    def arm(self, fault_at, fault_kind, second_after=None):
         self.n = 0
         self.fault_at = fault_at
         self.fault_kind = fault_kind
         self.fired = None
         self.puts = []
+        self.second_after = second_after     # a second OSError this many fault points after the first (same attempt)
+        self.second_fired = None
 
     def _raise(self, what):
         self.fired = what
@@ -98,7 +103,12 @@ class Controller(object):
         self.log.append("FAULT %s %s" % (self.fault_kind, what))
         if self.fault_kind == "crash":
             raise Crash(what)
-        code = errno.EIO if self.fault_kind == "eio" else errno.ENOSPC     # 'short' on a buffered file surfaces as ENOSPC on the retry
+        if self.fault_kind == "eio":
+            # an I/O error of a drawn kind: hard errors as well as the ones network / FUSE file systems report as transient
+            code = IO_ERRNOS[self.ch.draw(len(IO_ERRNOS), kind="errno")]
+            self.faults["errno_" + errno.errorcode.get(code, str(code))] = self.faults.get("errno_" + errno.errorcode.get(code, str(code)), 0) + 1
+        else:
+            code = errno.ENOSPC     # 'short' on a buffered file surfaces as ENOSPC on the retry
         raise OSError(code, "injected %s at %s" % (self.fault_kind, what))
 
     def point(self, what):
@@ -108,6 +118,13 @@ class Controller(object):
         self.log.append(what)
         if self.fault_at is not None and self.n == self.fault_at and self.fired is None:
             self._raise(what)
+        if (self.second_after is not None and self.fired is not None and self.second_fired is None
+                and self.fault_kind != "crash" and self.n == self.fault_at + self.second_after):
+            # the process survived the first (I/O) error and is cleaning up or carrying on: it fails again
+            self.second_fired = what
+            self.faults["second_fault_same_attempt"] = self.faults.get("second_fault_same_attempt", 0) + 1
+            self.log.append("FAULT second eio %s" % what)
+            raise OSError(errno.EIO, "injected second I/O error at %s" % what)
 
     def write_point(self, raw, data, rel, unbuffered=False):
         """One transfer of bytes to the disk.  Returns the number of bytes accepted (all of them unless a 'short'
@@ -181,6 +198,17 @@ class OsProxy(types.ModuleType):
         c.point("before_replace %s" % rel)
         os.replace(a, b)
         c.point("after_replace %s" % rel)
+
+    def remove(self, p, *a, **kw):
+        c = ctl()
+        if c is None or not c.active:
+            return os.remove(p, *a, **kw)
+        rel = os.path.relpath(p, c.root)
+        c.point("before_remove %s" % rel)
+        os.remove(p, *a, **kw)
+        c.point("after_remove %s" % rel)
+
+    unlink = remove
 
     def makedirs(self, p, *a, **kw):
         c = ctl()
@@ -369,7 +397,7 @@ def run_one(ch, env):
     nimg = 1 + ch.draw(3, p0=0.5, kind="nimg")
     images = {}
     for i in range(nimg):
-        uid = "img%d" % i
+        uid = ("img0", "img1", "img10")[i]      # one id is a prefix of another
         nother = ch.draw(7, kind="nfiles")
         names = ["index.wtml"]
         pool = list(NAMES)
@@ -377,7 +405,7 @@ def run_one(ch, env):
             names.append(pool.pop(ch.draw(len(pool), kind="fname")))
         files = {}
         for n in names:
-            size = (0, 1, 100, 5000, 20000, 4096, 8193)[ch.draw(7, kind="fsize")]
+            size = (0, 1, 100, 5000, 20000, 4096, 8193, 70000, 200000)[ch.draw(9, kind="fsize")]
             if n == "index.wtml" and size == 0:
                 size = 300
             files[n] = file_bytes(uid, n, size)
@@ -406,7 +434,10 @@ def run_one(ch, env):
             if faulty_allowed and ch.draw(8, kind="inject") != 7:
                 fault_at = 1 + ch.draw(72, kind="fault_at")
                 kind = ("crash", "eio", "enospc", "short")[ch.draw(4, p0=0.55, kind="fault_kind")]
-            c.arm(fault_at, kind)
+            second = None
+            if fault_at is not None and kind != "crash" and ch.draw(5, kind="second_fault") == 4:
+                second = 1 + ch.draw(4, kind="second_fault_after")
+            c.arm(fault_at, kind, second)
             c.at_rename_after_last_transfer = False
             pre_index = [u for u in images if os.path.exists(os.path.join(store, u, "index.wtml")) and os.path.isdir(os.path.join(work, "approved", u))]
             if pre_index:
